@@ -1469,6 +1469,7 @@ pub mod simfs {
                 world::with(|w| {
                     if w.gating_fault {
                         w.stats.read_faults_injected += 1;
+                        crate::isolate::child_fault_notice();
                     }
                 });
                 // EIO
@@ -1594,7 +1595,12 @@ pub mod simfs {
     /// filled — a crash in between leaves it empty or partly written.
     pub fn write<P: AsRef<Path>, C: AsRef<[u8]>>(p: P, contents: C) -> io::Result<()> {
         let key = write_key_of(p.as_ref());
-        let c = contents.as_ref().to_vec();
+        let mut c = contents.as_ref().to_vec();
+        // (round 11) a full device: the file ends up with what fitted, the call fails with ENOSPC
+        let (fits, full) = world::with(|w| w.admit_write(c.len()));
+        if full {
+            c.truncate(fits);
+        }
         maybe_intrude();
         let gate = world::with(|w| {
             let mut d = Fnv::default();
@@ -1614,10 +1620,13 @@ pub mod simfs {
         world::with(|w| {
             w.touch(&key);
             w.removed.remove(&key);
-            w.written.insert(key, c[..n].to_vec());
+            w.written.insert(key, c[..n.min(c.len())].to_vec());
         });
         if die {
             crash();
+        }
+        if full {
+            return Err(super::enospc());
         }
         Ok(())
     }
@@ -1920,8 +1929,10 @@ pub mod simfs {
             self.sync_all()
         }
         pub fn set_len(&self, n: u64) -> io::Result<()> {
-            if let Some(key) = &self.cur_key() {
+            if self.cur_key().is_some() {
                 let (apply, die) = gate_op();
+                // (the name is looked up after a second instance may have renamed the file)
+                let key = &self.cur_key().unwrap_or_default();
                 if apply {
                     world::with(|w| {
                         w.touch(key);
@@ -1975,10 +1986,11 @@ pub mod simfs {
         }
         /// `FileExt::write_at`
         pub fn write_at(&self, buf: &[u8], offset: u64) -> io::Result<usize> {
-            let Some(key) = self.cur_key() else {
+            if self.cur_key().is_none() {
                 return Err(io::Error::new(io::ErrorKind::PermissionDenied, "file not opened for writing"));
-            };
+            }
             maybe_intrude();
+            let Some(key) = self.cur_key() else { return Ok(buf.len()) };
             let gate = world::with(|w| {
                 let mut d = Fnv::default();
                 d.bytes(buf);
@@ -2069,14 +2081,27 @@ pub mod simfs {
 
     impl io::Write for File {
         fn write(&mut self, buf: &[u8]) -> io::Result<usize> {
-            let Some(key) = self.cur_key() else {
+            if self.cur_key().is_none() {
                 return Err(io::Error::new(io::ErrorKind::PermissionDenied, "file not opened for writing"));
-            };
+            }
             let n = match super::simio::plan_write(&mut self.wrng, &mut self.consecutive_weintr, buf.len()) {
                 Ok(n) => n,
                 Err(e) => return Err(e),
             };
+            // (round 11) a full device takes a prefix (short write), then nothing (ENOSPC)
+            let n = {
+                let (fits, full) = world::with(|w| w.admit_write(n));
+                if full && fits == 0 {
+                    return Err(super::enospc());
+                }
+                fits
+            };
             maybe_intrude();
+            // (round 11) the name under which the inode lives is looked up *after* a second
+            // instance may have run: it may have renamed the file this handle is open on (control
+            // `s10`: the stale name sent the rest of the writes to a new file of the old name and
+            // at offset 0 — a corruption no kernel produces)
+            let Some(key) = self.cur_key() else { return Ok(n) };
             let gate = world::with(|w| {
                 let mut d = Fnv::default();
                 d.bytes(&buf[..n]);
@@ -2095,7 +2120,11 @@ pub mod simfs {
             let end = world::with(|w| {
                 w.touch(&key);
                 let f = w.written.entry(key).or_default();
-                let at = wpos.unwrap_or(f.len()).min(f.len());
+                let at = wpos.unwrap_or(f.len());
+                if f.len() < at {
+                    // the file was truncated under this handle: writing past the end leaves a hole
+                    f.resize(at, 0);
+                }
                 let overlap = (f.len() - at).min(data.len());
                 f[at..at + overlap].copy_from_slice(&data[..overlap]);
                 f.extend_from_slice(&data[overlap..]);
@@ -2220,8 +2249,13 @@ pub mod simio {
             w.stdout_eintr = ce;
         });
         let n = r?;
-        super::emit_str(&String::from_utf8_lossy(&buf[..n]));
-        Ok(n)
+        // (round 11) a full device takes a prefix (short write), then nothing (ENOSPC)
+        let (fits, full) = world::with(|w| w.admit_write(n));
+        if full && fits == 0 {
+            return Err(super::enospc());
+        }
+        super::emit_bytes_admitted(&buf[..fits]);
+        Ok(fits)
     }
     impl io::Write for Stdout {
         fn write(&mut self, buf: &[u8]) -> io::Result<usize> {
@@ -2360,6 +2394,8 @@ pub mod simenv {
             w.exit_code = Some(code);
             w.event("exit", code as u64, 0);
         });
+        // a run that has a process of its own ends here, literally (does not return then)
+        crate::sim::exit_child_now(code);
         std::panic::panic_any(ExitRequest(code))
     }
 }
@@ -2498,6 +2534,7 @@ pub mod simproc {
             if !self.is_formatter() {
                 world::with(|w| {
                     w.missing_program = true;
+                    crate::isolate::child_fault_notice();
                     w.event("spawn_unknown_program", 0, 0);
                 });
             }
@@ -3382,7 +3419,45 @@ pub fn emit_str(s: &str) {
         simfs::crash();
     }
     let die = matches!(gate, crate::world::Gate::CrashAfter | crate::world::Gate::Torn(_));
+    // (round 11) the device stdout is redirected to may be full: what fits is written, then the
+    // print fails the way `println!` does
+    let (fits, full) = crate::world::with(|w| w.admit_write(s.len()));
+    if full {
+        let mut cut = fits;
+        while cut > 0 && !s.is_char_boundary(cut) {
+            cut -= 1;
+        }
+        emit_str_inner(&s[..cut]);
+        if std::thread::panicking() {
+            // a print from a destructor that runs while the program is already unwinding (a
+            // report in `Drop`, control `n3_r4`): the real `println!` would panic a second time
+            // and the process would abort — as loud as it gets. Here the process image is simply
+            // gone from this point on; the first panic is what the run ends with.
+            crate::world::with(|w| w.frozen = true);
+            return;
+        }
+        panic!("failed printing to stdout: No space left on device (os error 28)");
+    }
     emit_str_inner(s);
+    if die {
+        simfs::crash();
+    }
+}
+
+/// ENOSPC, as the OS reports it
+pub fn enospc() -> std::io::Error {
+    std::io::Error::from_raw_os_error(28)
+}
+
+/// bytes of a `write` on the stdout handle that the device has already admitted
+pub fn emit_bytes_admitted(b: &[u8]) {
+    let s = String::from_utf8_lossy(b);
+    let gate = crate::world::with(|w| w.gate(false, None));
+    if matches!(gate, crate::world::Gate::CrashBefore) {
+        simfs::crash();
+    }
+    let die = matches!(gate, crate::world::Gate::CrashAfter | crate::world::Gate::Torn(_));
+    emit_str_inner(&s);
     if die {
         simfs::crash();
     }
